@@ -14,8 +14,9 @@ class Client(H.Server):
             super().__init__(services, env=env)
         else:   # restart on an existing store
             self.wd, self.path = os.path.dirname(path), path
+            self.errpath = os.path.join(self.wd, "stderr.log")
             self.p = subprocess.Popen([build.XSV, "serve", self.path, services], stdin=subprocess.PIPE,
-                                      stdout=subprocess.PIPE, stderr=subprocess.PIPE, text=True, bufsize=1,
+                                      stdout=subprocess.PIPE, stderr=open(self.errpath, "ab"), text=True, bufsize=1,
                                       env=dict(os.environ, **(env or {})))
             if "READY" not in self.p.stdout.readline():
                 raise RuntimeError("server did not restart")
